@@ -219,7 +219,22 @@ func genDist(t *rapid.T, kind string, n int) DistSpec {
 	d := DistSpec{Kind: kind}
 	switch kind {
 	case "gauss":
-		switch k := rapid.IntRange(0, 9).Draw(t, "sigmaKind"); {
+		k := rapid.IntRange(0, 10).Draw(t, "sigmaKind")
+		if k == 10 {
+			// near misses of the branch condition "sigma > 2^53 && bound > 2^64" (arbitrary-precision path)
+			up := func(x float64) float64 { return math.Nextafter(x, math.Inf(1)) }
+			nm := [][2]float64{
+				{0x1p53, 0x1.8p65},       // sigma not above 2^53: float path with a bound beyond uint64
+				{up(0x1p53), 0x1p64},     // bound not above 2^64: float path
+				{up(0x1p53), up(0x1p64)}, // both just above: arbitrary-precision path
+				{0x1p63, 0x1p64},         // float path, bound = 2 sigma = 2^64
+				{0x1p63, up(0x1p64)},     // arbitrary-precision path, bound just above 2 sigma
+				{0x1p62, 0x1.8p64},       // arbitrary-precision path, bound = 6 sigma
+			}[rapid.IntRange(0, 5).Draw(t, "nearMiss")]
+			d.Sigma, d.Bound = nm[0], nm[1]
+			return d
+		}
+		switch {
 		case k < len(gaussSigmas):
 			d.Sigma = gaussSigmas[k]
 		case k == 6 || k == 9:
